@@ -15,8 +15,8 @@ import (
 func init() {
 	Register(&Profile{Name: "coder-schedules", Prop: "C12", Weight: 10, Quick: 12000, Thorough: 400000, Fn: coderSchedules})
 	Register(&Profile{Name: "par2-goroutine-invariance", Prop: "C12", Weight: 3, Quick: 1500, Thorough: 40000, Fn: par2GoroutineInvariance})
-	Register(&Profile{Name: "coder-race-batch", Prop: "C12", Weight: 1, Quick: 24, Thorough: 400, Fn: coderRaceBatch})
-	Register(&Profile{Name: "coder-free", Prop: "C12-internal", Weight: 0, Fn: func(r *Run) { coderFree(r, 40) }})
+	Register(&Profile{Name: "coder-race-batch", Prop: "C12", Weight: 1, Quick: 16, Thorough: 300, Fn: coderRaceBatch})
+	Register(&Profile{Name: "coder-free", Prop: "C12-internal", Weight: 0, Fn: func(r *Run) { coderFree(r, 30); par2Free(r, 2) }})
 	SetMeta("C12", &Meta{
 		Level: "exploration",
 		Rule: "coder-schedules: seeded (coder kind, data/parity shard counts, even shard length, goroutine count, erasure set) with every release of a parked worker drawn from the tape; a case is non-trivial when a parallel region with >= 2 workers was driven, distinct by (shard length, workers spawned, strategy, operation, schedule hash). par2-goroutine-invariance: whole Create/Repair on the simulated disk across goroutine counts under driven schedules. coder-race-batch: the same coder workloads free-running in a -race build (secondary evidence; the assembly kernels are invisible to the race detector).",
@@ -447,4 +447,46 @@ func mk0(r *Run, kind, d, p, g int) rsec16.Coder {
 		r.Violate("coder-construction", "new coder(%d,%d,%d): %v", d, p, g, err)
 	}
 	return c
+}
+
+// par2Free is executed inside the -race build after coderFree: whole
+// Create / Repair on the simulated disk with several goroutines,
+// free-running, compared with the single-goroutine result.
+func par2Free(r *Run, iters int) {
+	t := r.T
+	for it := 0; it < iters; it++ {
+		w := GenWorld(r, GenOpts{MaxFiles: 4, RandomOnly: true, SliceSizes: []int{16, 64, 100, 1024, 4096}, MaxTotal: 64 << 10})
+		if t.Bool(1, 5, "big-input") {
+			size := (2 << 20) + t.Draw(1<<20, "mb-size")
+			if size/w.S > 20000 {
+				size = 20000*w.S - 3
+			}
+			data := expandContent(ckRandom, t.Draw64(0, "mb-seed"), size, 64)
+			w.Files[0].Data = data
+			w.Disk.Put(w.Path(0), data)
+		}
+		base := w.Disk.Clone()
+		w.G = 1
+		c1 := r.Create2(w, w.FilePaths(), nil, SchedSpec{})
+		r.noPanic(c1)
+		want := writesOf(c1)
+		w2 := *w
+		w2.Disk = base.Clone()
+		w2.G = 2 + t.Draw(7, "g")
+		c2 := r.Create2(&w2, w2.FilePaths(), nil, SchedSpec{Mode: sched.Jitter})
+		r.noPanic(c2)
+		if (c1.Err == nil) != (c2.Err == nil) {
+			r.Violate("outputs-differ", "goroutines (free-running): Create with G=%d returned %v, with G=1 %v", w2.G, c2.Err, c1.Err)
+		}
+		if d := diffFileSets(want, writesOf(c2)); d != "" {
+			r.Violate("outputs-differ", "goroutines (free-running): Create with G=%d: %s", w2.G, d)
+		}
+		w2.RecordCreated(r, c2)
+		w2.DamageData(r, []string{"delete", "flip", "overwrite", "insert"})
+		rep := r.Repair2(&w2, w2.Index, w2.G, t.Bool(1, 2, "dc"), nil, SchedSpec{Mode: sched.Jitter})
+		r.noPanic(rep)
+		if rep.Err == nil && !w2.AllIntact() {
+			r.Violate("bytes-differ-from-single", "free-running Repair with G=%d reports success but %s", w2.G, w2.FirstDamaged())
+		}
+	}
 }
